@@ -27,7 +27,7 @@ def attrUnit (r : Rec) : Attr.Unit Float :=
   { id := r.int "id", hpRatio := r.flt "hpr", energy := r.flt "energy", maxEnergy := r.flt "maxenergy",
     stance := r.flt "stance", maxStance := r.flt "maxstance", lastAttacker := r.int "id",
     hpBase := r.flt "maxhp", hpPct := 0, hpFlat := 0, hpConv := 0,
-    regen := r.flt "regen", regenConv := 0, stancePct := r.flt "stancepct" }
+    regen := r.flt "regen", regenConv := 0, stancePct := r.flt "stancepct", revive := r.bool "revive" }
 
 /-- the attribute-level unit also carries regen / toughness bonus; keep them in step with `stats` -/
 def opOfRec (s : St Float) (r : Rec) : Option (Op Float) :=
@@ -40,7 +40,8 @@ def opOfRec (s : St Float) (r : Rec) : Option (Op Float) :=
       key := r.int "key", src := r.int "src", targets := r.ints "targets", atkType := r.nat "atype",
       dmgType := r.nat "dtype", terms := parseTerms r, flat := r.flt "flat", hitRatio := r.flt "ratio",
       asPure := r.bool "pure", energyGain := r.flt "energy", stanceDamage := r.flt "stance",
-      bbd := r.flt "bbd", draws := r.flts "draws" })
+      bbd := r.flt "bbd", draws := r.flts "draws",
+      adj := if r.has "hadj" then some { onlyTgt := r.int "honly", attDmgAdd := r.flt "hdmg", attCritAdd := r.flt "hcrit", defTakenAdd := r.flt "htaken" } else none })
   | "endattack" => some .endAttack
   | "heal" => some (.heal {
       key := 0, src := r.int "src", targets := r.ints "targets", terms := parseTerms r, flat := r.flt "flat",
